@@ -724,11 +724,11 @@ impl<H: DnsHandle> DnssecDnsHandle<H> {
                 }
             }
             Ok(response) => {
-                if !response
-                    .answers
-                    .iter()
-                    .any(|r| r.record_type() == RecordType::DS)
-                {
+                // Only a negative response is a denial of the DS RRset: `verify_response` accepts an
+                // empty answer section only with a secure NSEC/NSEC3 proof, with an authority section
+                // that is insecure throughout, or below a provably insecure ancestor. A response that
+                // has answers, none of them DS, proves nothing about the delegation.
+                if response.answers.is_empty() {
                     debug!(
                         %zone,
                         "marking zone as insecure based on secure NSEC/NSEC3 proof or insecure parent zone",
